@@ -27,12 +27,15 @@ VARIABLES flavour, urls, conn,                       \* builder
 vars == <<flavour, urls, conn, addr, db, username, password, protocol, tls, maxsize, twait, tcreate, trecycle, qmode, source>>
 
 N == "-"
-UrlKinds == {"unset", "valid", "valid2", "noscheme", "badscheme", "empty", "squote", "dquote", "badport", "spaces", "onlyscheme"}
+UrlKinds == {"unset", "valid", "valid2", "noscheme", "badscheme", "empty", "squote", "dquote", "badport", "spaces", "onlyscheme",
+             "mixed_gb", "mixed_bg"}   \* lists of seed nodes: a well-formed URL next to a malformed one (cluster / sentinel only)
+Mixed == {"mixed_gb", "mixed_bg"}
 Dur == {"omitted", "null", "0s0n", "1s0n", "0s1n", "maxsmaxn"}
 
 Init ==
   CASE Slice = "builder" ->
          /\ flavour \in {"plain", "cluster", "sentinel"} /\ urls \in UrlKinds /\ conn \in {"unset", "tcp", "unix"}
+         /\ (flavour = "plain" => urls \notin Mixed)
          /\ addr = N /\ db = N /\ username = N /\ password = N /\ protocol = N /\ tls = N
          /\ maxsize = N /\ twait = N /\ tcreate = N /\ trecycle = N /\ qmode = N /\ source = N
     [] Slice = "conv" ->
@@ -49,7 +52,7 @@ Next == UNCHANGED vars
 Spec == Init /\ [][Next]_vars
 
 ----------------------------------------------------------------------------
-Malformed == {"noscheme", "badscheme", "empty", "squote", "dquote", "badport", "spaces", "onlyscheme"}
+Malformed == {"noscheme", "badscheme", "empty", "squote", "dquote", "badport", "spaces", "onlyscheme"} \cup Mixed
 
 ExpectBuilder ==
   IF urls # "unset" /\ conn # "unset" THEN "UrlAndConnectionSpecified"
